@@ -64,6 +64,10 @@ func MustParse(s string) any {
 	return v
 }
 
+// RawJSON is JSON text the harness wants emitted verbatim (an integer literal beyond 2^53, which RFC 8785 would round: the
+// bytes are then not canonical, which signed payloads need not be).
+type RawJSON string
+
 // JCS serialises a generic JSON value per RFC 8785.
 func JCS(v any) []byte {
 	var b bytes.Buffer
@@ -89,6 +93,8 @@ func writeJCS(b *bytes.Buffer, v any) {
 			panic("ref.JCS: bad number " + string(x))
 		}
 		b.WriteString(ES6Number(f))
+	case RawJSON:
+		b.WriteString(string(x))
 	case float64:
 		b.WriteString(ES6Number(x))
 	case int:
